@@ -235,6 +235,14 @@ pub enum PredicateError<E> {
 #[derive(Debug, Error)]
 pub struct ProgramErrors<E>(Vec<(usize, ProgramError<E>)>);
 
+#[cfg(essential_base_verif)]
+impl<E> ProgramErrors<E> {
+    /// The failed node indices and their errors (verification accessor).
+    pub fn entries(&self) -> &[(usize, ProgramError<E>)] {
+        &self.0
+    }
+}
+
 /// An error occurring during a program task.
 #[derive(Debug, Error)]
 pub enum ProgramError<E> {
